@@ -80,6 +80,9 @@ class Module:
                 return loc[n.id]
             if n.id in self.env:
                 return self.env[n.id]
+            if n.id in self.funcs:
+                # a named function used where construct takes a callable (decoder=, Computed(), Check()): an expression like a lambda
+                return Expr(n.id, self.funcs[n.id], self.name)
             raise NotImplementedError(f"name {n.id}")
         if isinstance(n, ast.Attribute):
             if self.is_c(n):
@@ -114,7 +117,12 @@ class Module:
             if isinstance(l, Expr):
                 return Expr(ast.unparse(n), n, self.name)
             raise NotImplementedError("mult")
-        if isinstance(n, (ast.Compare, ast.BinOp, ast.Lambda, ast.JoinedStr)):
+        if isinstance(n, ast.UnaryOp) and isinstance(n.op, (ast.USub, ast.UAdd)):
+            v = self.ev(n.operand, loc)
+            if isinstance(v, (int, float)) and not isinstance(v, bool):
+                return -v if isinstance(n.op, ast.USub) else v
+            return Expr(ast.unparse(n), n, self.name)
+        if isinstance(n, (ast.Compare, ast.BinOp, ast.Lambda, ast.JoinedStr, ast.UnaryOp, ast.BoolOp)):
             return Expr(ast.unparse(n), n, self.name)
         if isinstance(n, ast.Subscript):
             b = self.ev(n.value, loc)
@@ -217,10 +225,20 @@ class Module:
     def inline(self, mod, fn, call, loc):
         params = [a.arg for a in fn.args.args]
         vals = [self.ev(a, loc) for a in call.args]
-        rets = [s for s in fn.body if isinstance(s, ast.Return)]
-        if len(rets) != 1:
-            raise NotImplementedError("multi-return")
-        return mod.ev(rets[0].value, dict(zip(params, vals)))
+        l2 = dict(zip(params, vals))
+        for s in fn.body:
+            if isinstance(s, ast.Expr) and isinstance(s.value, ast.Constant):
+                continue
+            if isinstance(s, ast.Assign) and len(s.targets) == 1 and isinstance(s.targets[0], ast.Name):
+                l2[s.targets[0].id] = mod.ev(s.value, l2)
+                continue
+            if isinstance(s, ast.AnnAssign) and isinstance(s.target, ast.Name) and s.value is not None:
+                l2[s.target.id] = mod.ev(s.value, l2)
+                continue
+            if isinstance(s, ast.Return) and s.value is not None:
+                return mod.ev(s.value, l2)
+            raise NotImplementedError("grammar-building helper with control flow")
+        raise NotImplementedError("no return")
 
 
 class World:
@@ -295,6 +313,28 @@ def bits_of(s):
     raise NotImplementedError(s.kind)
 
 
+def returned_exprs(node):
+    """the expressions a lambda / named function can return (conditional expressions and if-statements opened up); None if not analysable"""
+    def open_(e):
+        if isinstance(e, ast.IfExp):
+            return open_(e.body) + open_(e.orelse)
+        return [e]
+    if isinstance(node, ast.Lambda):
+        return open_(node.body)
+    if isinstance(node, ast.FunctionDef):
+        out = []
+        for r in ast.walk(node):
+            if isinstance(r, ast.Return):
+                out += open_(r.value) if r.value is not None else [ast.Constant(value=None)]
+        return out or None
+    return None
+
+
+def first_param(node):
+    a = node.args.args if isinstance(node, (ast.Lambda, ast.FunctionDef)) else []
+    return a[0].arg if a else None
+
+
 def kinds(n: N):
     """set of value kinds a parsed node can yield"""
     k = n.kind
@@ -317,19 +357,19 @@ def kinds(n: N):
     if k == "ExprAdapter":
         d = n.a["decoder"]
         out = set()
-        body = d.node.body if isinstance(d.node, ast.Lambda) else None
-        if isinstance(body, ast.IfExp):
-            for br in (body.body, body.orelse):
-                if isinstance(br, ast.Constant) and br.value is None:
-                    out.add("none")
-                elif isinstance(br, ast.Name) and br.id == d.node.args.args[0].arg:
-                    out |= kinds(n.a["sub"])
-                else:
-                    out.add("?")
-            return out
-        if isinstance(body, ast.Call) and ast.unparse(body.func).endswith(".join"):
-            return {"str"}
-        return {"?"}
+        rets = returned_exprs(d.node) if isinstance(d, Expr) else None
+        if not rets:
+            return {"?"}
+        for br in rets:
+            if isinstance(br, ast.Constant) and br.value is None:
+                out.add("none")
+            elif isinstance(br, ast.Name) and br.id == first_param(d.node):
+                out |= kinds(n.a["sub"])
+            elif isinstance(br, ast.Call) and ast.unparse(br.func).endswith(".join"):
+                out.add("str")
+            else:
+                out.add("?")
+        return out
     if k == "Peek":
         return kinds(n.a["sub"]) | {"none"}
     if k == "If":
